@@ -112,19 +112,23 @@ impl Members {
     // A result of `true` means that the effective list of
     // cluster member addresses has changed
     pub fn remove_member(&mut self, actor: &Actor) -> bool {
-        let effectively_down = if let Some(member) = self.states.get(&actor.id()) {
-            member.ts == actor.ts()
-        } else {
-            // Shouldn't happen
-            false
-        };
+        // A down notification about the identity we know, or about a newer one
+        // (renewed identities are announced as renames, which we don't track),
+        // means the member we have on file is gone.
+        let down_addr = self
+            .states
+            .get(&actor.id())
+            .filter(|member| member.ts.to_duration() <= actor.ts().to_duration())
+            .map(|member| member.addr);
 
-        if effectively_down {
-            self.by_addr.remove(&actor.addr());
+        if let Some(addr) = down_addr {
+            if self.by_addr.get(&addr) == Some(&actor.id()) {
+                self.by_addr.remove(&addr);
+            }
             self.states.remove(&actor.id());
         }
 
-        effectively_down
+        down_addr.is_some()
     }
 
     pub fn add_rtt(&mut self, addr: SocketAddr, rtt: Duration) {
